@@ -39,12 +39,12 @@ P == CASE Profile = "c04q" ->
       [] Profile = "c04g" ->
             \* re-inclusion: guards and #pragma once, with the guard macros undefined between two inclusions
             [slots |-> <<<<"inc", "h.h">>, <<"src", "h.h">>>>,
-             bodies |-> {"guard", "once", "def"}, stmts |-> {"qh", "undefG", "undefM"}, maxmain |-> 3, nmains |-> 1,
+             bodies |-> {"guard", "once", "onceT", "def"}, stmts |-> {"qh", "undefG", "undefM"}, maxmain |-> 3, nmains |-> 1,
              idirs |-> {<<Iu("inc")>>}, forced |-> {<<>>}, nents |-> 1, plats |-> <<"p1">>]
       [] Profile = "sim" ->
             [slots |-> <<<<"src", "h.h">>, <<"inc", "h.h">>, <<"sys", "h.h">>, <<"ext", "h.h">>,
                          <<"src", "g.h">>, <<"inc", "g.h">>, <<"ext", "g.h">>>>,
-             bodies |-> {"plain", "def", "guard", "once", "testX", "undefX", "defX", "incq", "inca", "gincq", "indX"},
+             bodies |-> {"plain", "def", "guard", "once", "onceT", "testX", "undefX", "defX", "incq", "inca", "gincq", "indX"},
              stmts |-> {"qh", "ah", "qg", "ag", "defX", "undefX", "testX", "valX", "mq", "ma", "dead", "undefM", "undefG", "inch", "indX"},
              maxmain |-> 4, nmains |-> 2,
              idirs |-> {<<Iu("inc"), Is("sys")>>, <<Iu("inc")>>, <<Is("sys"), Iu("inc")>>, <<Iu("sys"), Iu("inc")>>, <<>>,
@@ -126,6 +126,8 @@ Body(b, d, n) ==
     [] b = "guard"  -> <<IfNdef(G(n)), Def(G(n), ""), Def(Mk(d), "1"), C, Endif>>
     [] b = "once"   -> <<[k |-> "once"], Def(Mk(d), "1"), C>>
     [] b = "testX"  -> <<IfDef("X"), C, Else, C, Endif, Def(Mk(d), "1")>>
+    \* #pragma once on a header whose second pass would be visible (it defines what it tests)
+    [] b = "onceT"  -> <<[k |-> "once"], IfDef("X"), C, Else, C, Endif, Def("X", "1")>>
     [] b = "undefX" -> <<[k |-> "undef", m |-> "X"], C>>
     [] b = "defX"   -> <<Def("X", "1"), C>>
     [] b = "incq"   -> <<Def(Mk(d), "1"), Inc("q", Other(n)), C>>
